@@ -33,6 +33,8 @@ def collect(ctx):
     scripts = emb + s1[:n] + s2[:n] + s3[:n // 2] + s4[:n // 2]
     if os.environ.get("VERIF_RPC_ONLY") == "embargo":      # development aid
         scripts = emb
+    if os.environ.get("VERIF_RPC_ONLY") == "wire":
+        scripts = emb[:2]
     ctx.log("RpcEnv: %d + %d + %d + %d scripts, %d chosen; RpcEmbargo: %d scripts (%d states, design invariants hold, control violates InOrder)"
             % (len(s1), len(s2), len(s3), len(s4), len(scripts) - len(emb), len(emb), est))
     drv = gobuild.build(ctx, "rpcdrv")
@@ -75,9 +77,28 @@ def report(ctx, res, mine, label):
     ctx.assume("script actions not enabled at run time are skipped; the driver waits for the receive loop to be idle and 2 ms of silence between actions")
 
 
+def wire_phase(ctx, res, mine):
+    """Wire-level trace validation of real connections (repository tests + two-connection stress), spec/rpc/RpcWire.tla."""
+    from props import rpcwire
+    w = rpcwire.run(ctx, res["sd"], ctx.quick)
+    for sig, text, obj in w["violations"]:
+        if mine(sig):
+            ctx.violation(sig, text, obj)
+    ctx.cover(**w["cover"])
+    ctx.cover(states=w["states"])
+    ctx.log("RpcWire: %d connection ends, %d messages (%d from the repository's rpc tests), %d rejected; stress: %s" % (
+        w["cover"]["wire_connection_ends"], w["cover"]["wire_messages"], w["cover"]["wire_messages_repo_tests"], w["cover"]["wire_rejected"], w["cover"]["stress"]))
+
+
+# wire-phase findings about reference counting belong to C07, everything else to C06
+WIRE_C07 = ("wire:send:release", "stress:capabilities-not-shut-down")
+
+
 def run(ctx):
     res = collect(ctx)
     report(ctx, res, MINE, "C07")
+    if os.environ.get("VERIF_RPC_ONLY") in (None, "", "wire"):
+        wire_phase(ctx, res, lambda sig: not sig.startswith(WIRE_C07))
 
 
 def replay(ctx, robj):
